@@ -29,12 +29,12 @@ C03_T(e, o) == (ProducesString(e.fn) /\ DestUsable(e) /\ ~NoOpByDoc(e))
                  => \E i \in Rng(e.d, e.dmax) : IsZeroCell(o.mem[i], e.pre[i])
 
 ZeroOrOrig(t) == (t.k = "exact" /\ t.v = 0) \/ t.k = "oz" \/ t.k = "same"
-C04_T(e, o) == (o.cls = "err" /\ DestUsable(e))
+C04_T(e, o) == (o.cls = "err" /\ DestUsable(e) /\ ~NoOpByDoc(e))
                  => /\ o.mem[e.d] = Ex(0, {"C04"})
                     /\ \A i \in Rng(e.d, e.dmax) : ZeroOrOrig(o.mem[i]) \/ (e.slack = 0 /\ o.mem[i].k = "any")
                     /\ \A i \in 1..Len(e.pre) : i \notin Rng(e.d, e.dmax) => o.mem[i].k = "same"
 
-C05_T(e, o) == /\ o.cls = "err" => \A hs \in o.h : Len(hs) = 1 /\ o.rc = {hs[1]} /\ hs[1] # EOK
+C05_T(e, o) == /\ o.cls = "err" => \A hs \in o.h : Len(hs) = 1 /\ (o.rc = {hs[1]} \/ o.rc = {-7777}) /\ hs[1] # EOK
                /\ o.cls = "ok"  => o.h = {<<>>}
                /\ (e.dmax = HUGE /\ e.d # NULLP) => (o.cls = "err" /\ \A i \in 1..Len(e.pre) : o.mem[i].k = "same")
 
